@@ -20,8 +20,22 @@ deterministic behaviour `reads`/`act`), for *all* graphs, initial file systems a
 * small facts: valid schedules = topological orders of the declared relation; independent steps commute; a batch of
   simultaneously enabled steps (parallel execution reading the state at batch start) equals running them in sequence;
   the executable checkers used by the driver decide `Valid`, `Complete`, and compute exactly the declared ancestors.
+
+Over the derivation model `MesonModel/Graph/HeaderDeps.lean` (BuildTarget.process_sourcelist / add_deps, NinjaBackend
+get_generated_headers + the header_deps loop of generate_target + order_deps_to_strings), for *all* well-formed target tables:
+
+* `declared_order_only_covers_may_read`  every generated header a compile statement of a target may read (outputs of the
+                                 generated elements handed to the target directly or through `declare_dependency(sources:)`
+                                 at any depth, in any form — whole custom target, index, generator list, repeated, mixed —
+                                 and generator-made headers of the libraries of its link_with / link_whole closure) is
+                                 among the order-only inputs the backend declares for it;
+* `compile_step_hermetic_of_model`  hence a compile statement whose produced reads are its declared inputs or such headers
+                                 satisfies the hypothesis `Hermetic` of the schedule theorems;
+* `both_outputs_of_one_producer_declared`  the instance for two outputs of one custom target arriving as `ct[i]` / `ct`;
+* `wfB_sound`                    the driver's well-formedness bit (reported with every answer) implies the hypothesis `WF`.
 -/
 import MesonModel.Graph.Lemmas
+import MesonModel.Graph.HeaderDepsLemmas
 
 namespace MesonModel.Props.C05
 open MesonModel.Graph
@@ -166,7 +180,99 @@ theorem ancestorsB_exact {g : Graph ι F C} (i : ι) (hc : ancClosedB g i (ances
     j ∈ ancestorsB g i ↔ Anc g i j :=
   ⟨ancestorsB_sound, anc_complete_of_closed hc⟩
 
+/-! ### the order-only derivation declares every generated header a compile statement may read -/
+
+section derivation
+open MesonModel.Graph.HeaderDeps
+
+/-- declared ⊇ may-read, for every well-formed target table: whatever the form and the route by which the outputs of a
+    producer reach the target, each header among them is an order-only input of the target's compile statements -/
+theorem declared_order_only_covers_may_read {tb : Table} (hwf : WF tb) {t : Nat} (ht : t < tb.tgts.length) {p : Str}
+    (h : MayRead tb t p) : p ∈ orderOnly tb t := by
+  unfold orderOnly headerDeps
+  rw [List.map_append, List.map_map, List.map_map]
+  rcases h with ⟨g, o, hg, ho, hh, rfl⟩ | ⟨l, outs, o, hr, hg, ho, hh, rfl⟩
+  · refine List.mem_append_right _ (List.mem_map.2 ⟨_, mem_loopHeaders
+      (handed_generated hwf.depsBefore _ (hwf.rootsInRange t) hg) ho hh, rfl⟩)
+  · have hl : l < t := by
+      have key : ∀ {a b : Nat}, LibReach tb a b → b < a := by
+        intro a b hab
+        induction hab with
+        | base hl _ => exact hwf.libsBefore _ _ hl
+        | step hl _ _ ih => have := hwf.libsBefore _ _ hl; omega
+      exact key hr
+    have hp : (tb.tgt l).priv ≠ [] := hwf.privNamed l (by omega)
+    have hm := reach_genHeaders hwf hr (t + 1) (by omega) _
+      (mem_ownGenHeaders (priv := (tb.tgt l).priv) (handed_generated hwf.depsBefore _ (hwf.rootsInRange l) hg) ho hh)
+    refine List.mem_append_left _ (List.mem_map.2 ⟨_, hm, ?_⟩)
+    simp [orderDepStr, hasDirPart_joinPath hp]
+
+/-- the same for the headers of the target's own generator lists (they are declared twice: by get_generated_headers and by
+    the loop) and, in particular, for two different outputs of one custom target that arrive by different routes -/
+theorem both_outputs_of_one_producer_declared {tb : Table} (hwf : WF tb) {t : Nat} (ht : t < tb.tgts.length)
+    {dir : Str} {o₁ o₂ : Out} {g₁ g₂ : Gen} (h₁ : Handed tb (tb.tgt t) g₁) (h₂ : Handed tb (tb.tgt t) g₂)
+    (e₁ : g₁ = .cti dir o₁ ∨ ∃ os, g₁ = .ct dir os ∧ o₁ ∈ os) (e₂ : g₂ = .cti dir o₂ ∨ ∃ os, g₂ = .ct dir os ∧ o₂ ∈ os)
+    (k₁ : headerish o₁.cls = true) (k₂ : headerish o₂.cls = true) :
+    joinPath dir o₁.name ∈ orderOnly tb t ∧ joinPath dir o₂.name ∈ orderOnly tb t := by
+  constructor
+  · apply declared_order_only_covers_may_read hwf ht
+    refine Or.inl ⟨g₁, o₁, h₁, ?_, k₁, ?_⟩
+    · rcases e₁ with rfl | ⟨os, rfl, hm⟩
+      · simp [Gen.outs]
+      · simpa [Gen.outs] using hm
+    · rcases e₁ with rfl | ⟨os, rfl, _⟩ <;> rfl
+  · apply declared_order_only_covers_may_read hwf ht
+    refine Or.inl ⟨g₂, o₂, h₂, ?_, k₂, ?_⟩
+    · rcases e₂ with rfl | ⟨os, rfl, hm⟩
+      · simp [Gen.outs]
+      · simpa [Gen.outs] using hm
+    · rcases e₂ with rfl | ⟨os, rfl, _⟩ <;> rfl
+
+/-- hermeticity of a compile statement follows from the model: if the statement carries the derived order-only inputs and,
+    among the paths that some step produces, reads only its declared inputs and generated headers it may read, then every
+    producer of something it reads is a declared ancestor -/
+theorem compile_step_hermetic_of_model {ι C : Type} [DecidableEq ι] {g : Graph ι Str C} {tb : Table} (hwf : WF tb) {t : Nat}
+    (ht : t < tb.tgts.length) {i : ι} (hins : ∀ p, p ∈ orderOnly tb t → p ∈ (g.step i).ins)
+    (hreads : ∀ f, f ∈ (g.step i).reads → (∃ j, j ∈ g.steps ∧ f ∈ (g.step j).outs) → f ∈ (g.step i).ins ∨ MayRead tb t f) :
+    ∀ f, f ∈ (g.step i).reads → ∀ j, j ∈ g.steps → f ∈ (g.step j).outs → Anc g i j := by
+  intro f hf j hj hfj
+  have hin : f ∈ (g.step i).ins := by
+    rcases hreads f hf ⟨j, hj, hfj⟩ with h | h
+    · exact h
+    · exact hins f (declared_order_only_covers_may_read hwf ht h)
+  exact Anc.base ⟨hj, f, hin, hfj⟩
+
+/-- the well-formedness bit the driver reports with every `hdeps` answer discharges the hypothesis `WF` -/
+theorem wfB_sound {tb : Table} (h : wfB tb = true) : WF tb := wfB_implies_WF h
+
+end derivation
+
 /-! ### the hypotheses are satisfiable, and the conclusion fails without them -/
+
+namespace DerivationExample
+open MesonModel.Graph.HeaderDeps
+
+/- gen = custom_target(output: ['x.c', 'x.h']);  d = declare_dependency(sources: gen[1]);
+   executable('app', 'main.c', gen[0], dependencies: d);  lib = static_library('l', g.process('a.in'));
+   executable('app2', 'main2.c', gen[0], gen, link_with: lib) -/
+def xc : Out := ⟨"x.c".toList, .source⟩
+def xh : Out := ⟨"x.h".toList, .header⟩
+def tb : Table :=
+  { deps := [{ sources := [.cti [] xh] }],
+    tgts := [{ kind := .executable, priv := "app.p".toList, sources := [.cti [] xc], deps := [0] },
+             { kind := .static, priv := "libl.a.p".toList,
+               sources := [.glist [⟨"a.c".toList, .source⟩, ⟨"a.h".toList, .header⟩]] },
+             { kind := .executable, priv := "app2.p".toList, sources := [.cti [] xc, .ct [] [xc, xh]], linkWith := [1] }] }
+
+example : wfB tb = true := by decide
+example : WF tb := wfB_sound (by decide)
+example : orderOnly tb 0 = ["x.h".toList] := by decide
+example : orderOnly tb 1 = ["libl.a.p/a.h".toList, "libl.a.p/a.h".toList] := by decide
+example : orderOnly tb 2 = ["libl.a.p/a.h".toList, "x.h".toList] := by decide
+example : MayRead tb 0 "x.h".toList :=
+  Or.inl ⟨.cti [] xh, xh, Or.inr ⟨0, .root (by decide), by decide⟩, by decide, by decide, by decide⟩
+
+end DerivationExample
 
 namespace Example
 
